@@ -1735,3 +1735,26 @@ impl proto::Peer for Peer {
         Ok(response)
     }
 }
+
+#[cfg(feature = "verif-hooks")]
+impl<B> SendRequest<B>
+where
+    B: Buf,
+{
+    /// Read-only state snapshot (verification hook).
+    pub fn verif_snapshot(&self) -> crate::verif::Snapshot {
+        self.inner.verif_snapshot()
+    }
+}
+
+#[cfg(feature = "verif-hooks")]
+impl<T, B> Connection<T, B>
+where
+    T: AsyncRead + AsyncWrite + Unpin,
+    B: Buf,
+{
+    /// Read-only state snapshot (verification hook).
+    pub fn verif_snapshot(&self) -> crate::verif::Snapshot {
+        self.inner.verif_snapshot()
+    }
+}
